@@ -151,6 +151,17 @@ func IsValueClass(name string) bool {
 // themselves and with the core partners.
 func IsAPICoverage(name string) bool { return strings.HasSuffix(name, "#api") }
 
+// IsSharedReceiver: read-only methods called on shared objects (name suffix #ro).
+func IsSharedReceiver(name string) bool { return strings.HasSuffix(name, "#ro") }
+
+func errByte2(b bool) byte {
+	if b {
+		return 1
+	}
+
+	return 0
+}
+
 // CorePartner lists the core operations that value-class and API-coverage operations are paired with.
 var CorePartner = map[string]bool{"HashToScalar(M,D[:18])": true, "Element.Subtract(E1)": true, "Element.Multiply(S1)": true,
 	"Scalar.Pow(S2)": true, "E1.Encode()": true, "Scalar.Set(S1).Add(S2)": true}
@@ -160,6 +171,8 @@ var CorePartner = map[string]bool{"HashToScalar(M,D[:18])": true, "Element.Subtr
 func PairWanted(a, b string) bool {
 	class := func(n string) int {
 		switch {
+		case IsSharedReceiver(n):
+			return 3
 		case IsAPICoverage(n):
 			return 2
 		case IsValueClass(n):
@@ -176,6 +189,10 @@ func PairWanted(a, b string) bool {
 		return true
 	case ca == 2 && cb == 2:
 		return a == b
+	case ca == 3 && cb == 3:
+		return true
+	case ca == 3 && cb != 0, cb == 3 && ca != 0:
+		return false
 	case ca != 0 && cb == 0:
 		return CorePartner[b]
 	case ca == 0 && cb != 0:
@@ -257,6 +274,10 @@ var Ops = []Op{
 	{"Element.Subtract(E2)", func(sh *Shared) []byte { return own().Subtract(sh.E2).Encode() }},
 	{"Element.Set(E1).Double", func(sh *Shared) []byte { return own().Set(sh.E1).Double().Encode() }},
 	{"Element.Equal(E1)", func(sh *Shared) []byte { return []byte{byte(own().Equal(sh.E1)), byte(sh.E1.Copy().Equal(sh.E1))} }},
+	// read-only methods called ON shared elements, in both argument orders (#ro: paired with each other and with the
+	// core partners): a lock per object taken in receiver-then-argument order deadlocks only for this pair
+	{"E1.Equal(E2)/IsIdentity #ro", func(sh *Shared) []byte { return []byte{byte(sh.E1.Equal(sh.E2)), errByte2(sh.E1.IsIdentity())} }},
+	{"E2.Equal(E1)/Hex #ro", func(sh *Shared) []byte { return append([]byte{byte(sh.E2.Equal(sh.E1))}, sh.E2.Hex()...) }},
 	{"Element.Multiply(S1)", func(sh *Shared) []byte { return own().Multiply(sh.S1).Encode() }},
 	{"E1.Copy().Multiply(S2)", func(sh *Shared) []byte { return sh.E1.Copy().Multiply(sh.S2).Encode() }},
 	{"E1.Encode()", func(sh *Shared) []byte { return sh.E1.Encode() }},
